@@ -917,9 +917,19 @@ def kmpExhaustive (plen tlen : Nat) : String := Id.run do
             if some (Kmp.split p t st 3) != split p t st 3 then return s!"mismatch split {hexOfBytes p} {hexOfBytes t} {st}"
   return s!"ok {count}"
 
+/-- the per-directive item step of pp.c as mirrored in Lib/FormatC (array size, snprintf bound, limit and operator from the
+    current source) on an item of `len` bytes '0': `panic` | `ub` | `ok <bytes appended> <last byte appended>` -/
+def fmtItem (which : String) (len : Nat) : String :=
+  let full := List.replicate len 48
+  match (if which == "bv" then FormatC.formatbvItem [] full else FormatC.bufferFormatItem [] full) with
+  | .panic => "panic"
+  | .ub => "ub"
+  | .ok r => s!"ok {r.length} {r.getLast?.getD 999}"
+
 def step (_ : Unit) (toks : List String) : Unit × String :=
   match toks with
   | [] => ((), "bad-op")
+  | ["fmt-item", w, n] => ((), fmtItem w n.toNat!)
   | ["kmp-exhaustive", a, b] => ((), kmpExhaustive a.toNat! b.toNat!)
   | f :: rest =>
     match parseArgs rest [] with
